@@ -942,37 +942,43 @@ class Query(Runner):
                 index = None
             # explicitly convert to int to provoke an error otherwise
             total_pages = sys.maxsize if params.get("pages") == "all" else int(mandatory(params, "pages", self))
-            for page in range(1, total_pages + 1):
-                if pit_op:
-                    pit_id = CompositeContext.get(pit_op)
-                    body["pit"] = {"id": pit_id, "keep_alive": "1m"}
+            try:
+                for page in range(1, total_pages + 1):
+                    if pit_op:
+                        pit_id = CompositeContext.get(pit_op)
+                        body["pit"] = {"id": pit_id, "keep_alive": "1m"}
 
-                response = await self._raw_search(es, doc_type=None, index=index, body=body.copy(), params=request_params, headers=headers)
-                parsed, last_sort = self._search_after_extractor(
-                    response,
-                    bool(pit_op),
-                    results.get("hits"),  # type: ignore[arg-type]  # TODO remove the below ignore when introducing type hints
-                )
-                results["pages"] = page
-                results["weight"] = page
-                if results.get("hits") is None:
-                    results["hits"] = parsed.get("hits.total.value")
-                    results["hits_relation"] = parsed.get("hits.total.relation")
-                results["took"] += parsed.get("took")
-                # when this evaluates to True, keep it for the final result
-                if not results["timed_out"]:
-                    results["timed_out"] = parsed.get("timed_out")
-                if pit_op:
-                    # per the documentation the response pit id is most up-to-date
-                    CompositeContext.put(pit_op, parsed.get("pit_id"))
+                    response = await self._raw_search(es, doc_type=None, index=index, body=body.copy(), params=request_params, headers=headers)
+                    parsed, last_sort = self._search_after_extractor(
+                        response,
+                        bool(pit_op),
+                        results.get("hits"),  # type: ignore[arg-type]  # TODO remove the below ignore when introducing type hints
+                    )
+                    results["pages"] = page
+                    results["weight"] = page
+                    if results.get("hits") is None:
+                        results["hits"] = parsed.get("hits.total.value")
+                        results["hits_relation"] = parsed.get("hits.total.relation")
+                    results["took"] += parsed.get("took")
+                    # when this evaluates to True, keep it for the final result
+                    if not results["timed_out"]:
+                        results["timed_out"] = parsed.get("timed_out")
+                    if pit_op:
+                        # per the documentation the response pit id is most up-to-date
+                        CompositeContext.put(pit_op, parsed.get("pit_id"))
 
-                if results.get("hits") / size > page and page < total_pages:
-                    body["search_after"] = last_sort
-                else:
-                    # body needs to be un-mutated for the next iteration (preferring to do this over a deepcopy at the start)
-                    for item in ["pit", "search_after"]:
-                        body.pop(item, None)
-                    break
+                    if results.get("hits") / size > page and page < total_pages:
+                        body["search_after"] = last_sort
+                    else:
+                        # body needs to be un-mutated for the next iteration (preferring to do this over a deepcopy at the start)
+                        for item in ["pit", "search_after"]:
+                            body.pop(item, None)
+                        break
+
+            finally:
+                # also when a page request fails: the same body is handed out again for the next iteration
+                for item in ["pit", "search_after"]:
+                    body.pop(item, None)
 
             return results
 
@@ -992,50 +998,57 @@ class Query(Runner):
                 index = None
             # explicitly convert to int to provoke an error otherwise
             total_pages = sys.maxsize if params.get("pages", "all") == "all" else int(mandatory(params, "pages", self))
-            for page in range(1, total_pages + 1):
-                if pit_op:
-                    pit_id = CompositeContext.get(pit_op)
-                    body["pit"] = {"id": pit_id, "keep_alive": "1m"}
+            composite_agg_body = None
+            try:
+                for page in range(1, total_pages + 1):
+                    if pit_op:
+                        pit_id = CompositeContext.get(pit_op)
+                        body["pit"] = {"id": pit_id, "keep_alive": "1m"}
 
-                paths_to_composite = paths_to_composite_agg(body, [])
-                if not paths_to_composite or len(paths_to_composite) != 1:
-                    raise exceptions.DataError("Unique path to composite agg required")
-                path_to_composite = paths_to_composite[0]
-                composite_agg_body = resolve_composite_agg(body, path_to_composite)
-                if not composite_agg_body:
-                    raise exceptions.DataError("Could not find composite agg - parser inconsistency")
-                if size:
-                    composite_agg_body["size"] = size
+                    paths_to_composite = paths_to_composite_agg(body, [])
+                    if not paths_to_composite or len(paths_to_composite) != 1:
+                        raise exceptions.DataError("Unique path to composite agg required")
+                    path_to_composite = paths_to_composite[0]
+                    composite_agg_body = resolve_composite_agg(body, path_to_composite)
+                    if not composite_agg_body:
+                        raise exceptions.DataError("Could not find composite agg - parser inconsistency")
+                    if size:
+                        composite_agg_body["size"] = size
 
-                body_to_send = tree_copy_composite_agg(body, path_to_composite)
-                response = await self._raw_search(es, doc_type=None, index=index, body=body_to_send, params=request_params, headers=headers)
-                parsed = self._composite_agg_extractor(
-                    response,
-                    bool(pit_op),
-                    path_to_composite,
-                    results.get("hits"),  # type: ignore[arg-type]  # TODO remove this ignore when introducing type hints
-                )
-                results["pages"] = page
-                results["weight"] = page
-                if results.get("hits") is None:
-                    results["hits"] = parsed.get("hits.total.value")
-                    results["hits_relation"] = parsed.get("hits.total.relation")
-                results["took"] += parsed.get("took")
-                # when this evaluates to True, keep it for the final result
-                if not results["timed_out"]:
-                    results["timed_out"] = parsed.get("timed_out")
-                if pit_op:
-                    # per the documentation the response pit id is most up-to-date
-                    CompositeContext.put(pit_op, parsed.get("pit_id"))
+                    body_to_send = tree_copy_composite_agg(body, path_to_composite)
+                    response = await self._raw_search(es, doc_type=None, index=index, body=body_to_send, params=request_params, headers=headers)
+                    parsed = self._composite_agg_extractor(
+                        response,
+                        bool(pit_op),
+                        path_to_composite,
+                        results.get("hits"),  # type: ignore[arg-type]  # TODO remove this ignore when introducing type hints
+                    )
+                    results["pages"] = page
+                    results["weight"] = page
+                    if results.get("hits") is None:
+                        results["hits"] = parsed.get("hits.total.value")
+                        results["hits_relation"] = parsed.get("hits.total.relation")
+                    results["took"] += parsed.get("took")
+                    # when this evaluates to True, keep it for the final result
+                    if not results["timed_out"]:
+                        results["timed_out"] = parsed.get("timed_out")
+                    if pit_op:
+                        # per the documentation the response pit id is most up-to-date
+                        CompositeContext.put(pit_op, parsed.get("pit_id"))
 
-                after_key = parsed["after_key"]
-                if isinstance(after_key, dict) and page < total_pages:
-                    composite_agg_body["after"] = after_key
-                else:
-                    # body needs to be un-mutated for the next iteration (preferring to do this over a deepcopy at the start)
-                    body.pop("pit", None)
+                    after_key = parsed["after_key"]
+                    if isinstance(after_key, dict) and page < total_pages:
+                        composite_agg_body["after"] = after_key
+                    else:
+                        # body needs to be un-mutated for the next iteration (preferring to do this over a deepcopy at the start)
+                        body.pop("pit", None)
+                        composite_agg_body.pop("after", None)
+                        break
+
+            finally:
+                body.pop("pit", None)
+                if composite_agg_body:
                     composite_agg_body.pop("after", None)
-                    break
 
             return results
 
